@@ -272,6 +272,97 @@ def gen_value(r, field, guarded, want_valid=True):
 
 ALPH = "abcdefghijklmnopqrstuvwxyz_"
 
+# --- class-level names: a key whose LAST component is the name of a method / class constant / read-only property of the
+# CLASS of the object the key walks to (Arguments and dict: the Mapping methods; the detector sections: to_dict ...;
+# ModelFunction, ModelGroup, DetectionPipeline, Detector, Processor).  Such a name exists (hasattr is True) but is no
+# setting: the assignment must be refused and nothing may change (no instance attribute may shadow the method).
+# The names are obtained from the implementation under test by introspection (driver op "names": generator input only);
+# this table is the fallback when that fails.
+_MAPPING = ["clear", "get", "items", "keys", "pop", "popitem", "setdefault", "update", "values", "__len__", "__iter__",
+            "__contains__", "__eq__", "__getitem__", "__setitem__", "__class__", "__init__"]
+_OBJ = ["__eq__", "__repr__", "__init__", "__class__", "__hash__"]
+STATIC_NAMES = {
+    "Processor": ["get", "has", "set", "replace", "run_pipeline", "result_to_dataset"] + _OBJ,
+    "Detector": ["to_dict", "from_dict", "empty", "load", "save", "to_xarray", "memory_usage", "set_readout",
+                 "is_dynamic"] + _OBJ,
+    "Geometry": ["to_dict", "from_dict", "shape", "horz_dimension", "vert_dimension"] + _OBJ,
+    "Environment": ["to_dict", "from_dict"] + _OBJ,
+    "Characteristics": ["to_dict", "from_dict", "system_gain"] + _OBJ,
+    "DetectionPipeline": ["MODEL_GROUPS", "describe", "get_model", "model_group_names"] + _OBJ,
+    "ModelGroup": ["run", "__iter__", "__getattr__", "__deepcopy__"] + _OBJ,
+    "ModelFunction": ["name", "__call__"] + _OBJ,
+    "Arguments": _MAPPING + ["__getattr__", "__setattr__", "__dir__", "_abc_impl"],
+    "dict": _MAPPING + ["copy", "fromkeys"],
+}
+NAMES: dict = {}      # detector type -> landing class -> usable class-level names (filled by load_names)
+USABLE_KINDS = ("method", "constant", "prop_ro_plain")
+
+
+def load_names(ctx: Ctx):
+    pipe = {"photon_collection": [dict(func="f.illumination", name="illumination", enabled=True, arguments={"level": jv(1)})]}
+    dets = ["ccd", "cmos", "mkid", "apd"]
+    obs = core.run_driver(ctx, "c08", [dict(op="names", det=d, pipe=pipe) for d in dets], workers=1)
+    NAMES.clear()
+    for d, o in zip(dets, obs):
+        if "names" not in o:
+            ctx.log(f"class-level names of a {d} processor could not be listed (static table used): {str(o)[:200]}")
+            NAMES[d] = {k: list(v) for k, v in STATIC_NAMES.items()}
+            continue
+        NAMES[d] = {label: sorted(n for n, kind in rows if kind in USABLE_KINDS and ok_str(n) and n not in GROUPS)
+                    for label, rows in o["names"].items()}
+        for label, static in STATIC_NAMES.items():
+            NAMES[d].setdefault(label, list(static))
+
+
+def names_of(det: str, label: str):
+    return (NAMES.get(det) or NAMES.get("ccd") or STATIC_NAMES).get(label) or STATIC_NAMES[label]
+
+
+def landing_label(prefix):
+    """the class of the object a valid key's prefix walks to"""
+    n = len(prefix)
+    if n == 0:
+        return "Processor"
+    if prefix[0] == "detector":
+        return "Detector" if n == 1 else {"geometry": "Geometry", "environment": "Environment",
+                                          "characteristics": "Characteristics"}.get(prefix[1]) if n == 2 else None
+    if prefix[0] == "pipeline":
+        if n <= 3:
+            return {1: "DetectionPipeline", 2: "ModelGroup", 3: "ModelFunction"}[n]
+        if prefix[3] == "arguments":
+            return "Arguments" if n == 4 else ("dict" if n == 5 else None)
+    return None
+
+
+def declared_here(pipe, prefix):
+    """the settings / items that really exist below this prefix (so that a class-level name that is ALSO declared —
+    an argument called `values` — is not mislabelled)"""
+    if len(prefix) >= 4 and prefix[0] == "pipeline" and prefix[3] == "arguments":
+        for m in pipe.get(prefix[1], []):
+            if m["name"] == prefix[2]:
+                if len(prefix) == 4:
+                    return set(m["arguments"])
+                v = m["arguments"].get(prefix[4])
+                return set(v["v"]) if isinstance(v, dict) and v.get("t") == "dictv" else set()
+    if len(prefix) == 2 and prefix[0] == "pipeline":
+        return {m["name"] for m in pipe.get(prefix[1], [])}
+    return set()
+
+
+def class_attr_key(r, key: str, pipe, det="ccd", dunder=0.25):
+    """a valid key cut after one of its objects + a class-level name of that object's class"""
+    parts = key.split(".")
+    depths = [d for d in range(len(parts)) if landing_label(parts[:d])]
+    if parts[0] == "pipeline" and len(parts) >= 5 and r.random() < 0.5:
+        depths = [4]            # the Arguments object: the place where a name is most easily both
+    d = r.choice(depths)
+    prefix = parts[:d]
+    pool = [n for n in names_of(det, landing_label(prefix)) if n not in declared_here(pipe, prefix)]
+    pub = [n for n in pool if not n.startswith("_")]
+    prv = [n for n in pool if n.startswith("_")]
+    name = r.choice(prv) if prv and (not pub or r.random() < dunder) else r.choice(pub)
+    return ".".join(prefix + [name])
+
 
 def misspell(r, comp: str) -> str:
     if not comp:
@@ -290,9 +381,11 @@ def misspell(r, comp: str) -> str:
     return comp[:i] + r.choice(ALPH) + comp[i:]
 
 
-def mutate_key(r, key: str, pipe):
+def mutate_key(r, key: str, pipe, det="ccd"):
     parts = key.split(".")
-    k = r.randrange(10)
+    k = r.randrange(12)
+    if k >= 10:
+        return class_attr_key(r, key, pipe, det), "class_attr_last"
     if k <= 3:  # misspelt last component (edit distance 1)
         parts[-1] = misspell(r, parts[-1])
         kind = "misspelt_last"
@@ -373,7 +466,7 @@ def gen_set_cases(ctx: Ctx, budget: int):
             elif roll < 0.52:
                 k2, kind = private_key(r, key)
             else:
-                k2, kind = mutate_key(r, key, pipe)
+                k2, kind = mutate_key(r, key, pipe, det)
             want_valid = r.random() < 0.8
             val = gen_value(r, field, guarded and kind == "valid", want_valid)
             if kind != "valid" and guarded and r.random() < 0.5:
@@ -425,6 +518,59 @@ def exhaustive_valid_cases(ctx: Ctx):
                                   cls=cls, value=jv(3), path="set", ignore=[]))
     return cases
 
+
+
+RICH_PIPE = {"photon_collection": [dict(func="f.illumination", name="illumination", enabled=True,
+                                        arguments={"level": 1, "values": 3, "lst": [1, 2], "d": {"k": 1, "keys": 2}}),
+                                   dict(func="f.illum", name="illum", enabled=False, arguments={"level": 2})],
+             "charge_generation": [dict(func="f.illum", name="illum", enabled=True, arguments={})]}
+
+
+def _rich_pipe():
+    out = {}
+    for g, ms in RICH_PIPE.items():
+        out[g] = [dict(m, arguments={a: ({"t": "dictv", "v": {k: jv(x) for k, x in v.items()}} if isinstance(v, dict) else jv(v))
+                                     for a, v in m["arguments"].items()}) for m in ms]
+    return out
+
+
+def exhaustive_class_attr_cases(ctx: Ctx):
+    """EVERY public class-level name (method, class constant, read-only property) of every kind of object a key can land
+    on — Processor, Detector, its three sections, DetectionPipeline, ModelGroup, ModelFunction, Arguments (with and
+    without declared arguments, of an enabled and of a disabled model), a dict-valued argument — as last component, plus
+    a sample of the non-public ones; all of them on a ccd processor, and for the other detector types the names their
+    classes add.  Nothing of this is a setting: has() may say True, set() must refuse and change nothing."""
+    r = ctx.rng("exh_class")
+    pipe = _rich_pipe()
+    landings = [[], ["detector"], ["detector", "geometry"], ["detector", "environment"], ["detector", "characteristics"],
+                ["pipeline"], ["pipeline", "photon_collection"], ["pipeline", "photon_collection", "illumination"],
+                ["pipeline", "photon_collection", "illumination", "arguments"],
+                ["pipeline", "photon_collection", "illum", "arguments"],
+                ["pipeline", "charge_generation", "illum", "arguments"],
+                ["pipeline", "photon_collection", "illumination", "arguments", "d"]]
+    cases = []
+
+    def add(det, prefix, name):
+        cases.append(dict(op="set", det=det, pipe=pipe, key=".".join(prefix + [name]), kind="class_attr_last", field=name,
+                          cls="class_attr", value=jv(r.choice([5, 5, "8", 0.5, "foo", [1, 2], True])),
+                          path=r.choice(["set", "set", "override"]), ignore=[]))
+
+    seen = {}
+    for det in ["ccd", "cmos", "mkid", "apd"]:
+        for prefix in landings:
+            label = landing_label(prefix)
+            pool = [n for n in names_of(det, label) if n not in declared_here(pipe, prefix)]
+            pub = [n for n in pool if not n.startswith("_")]
+            prv = [n for n in pool if n.startswith("_")]
+            if det == "ccd":
+                chosen = pub + r.sample(prv, min(3, len(prv)))
+                seen[tuple(prefix)] = set(pub)
+            else:
+                new = [n for n in pub if n not in seen[tuple(prefix)]]
+                chosen = new + r.sample(pub, min(1, len(pub)))
+            for n in chosen:
+                add(det, prefix, n)
+    return cases
 
 
 # --- derived processors (the copy a sweep / calibration / replace assigns on)
@@ -482,7 +628,7 @@ def gen_derive_cases(ctx: Ctx, budget: int):
             if r.random() < 0.85:
                 k2, kind = key, "valid"
             else:
-                k2, kind = mutate_key(r, key, pipe)
+                k2, kind = mutate_key(r, key, pipe, det)
                 if not ok_str(k2):
                     continue
             cases.append(derive_case(r, det, pipe, k2, cls, field, kind, via))
@@ -638,11 +784,13 @@ def gen_validate_cases(ctx: Ctx, budget: int):
                     k2 = r.choice([".".join(parts[:2]), ".".join(parts[:2] + ["to_dict"]), ".".join(parts[:2] + ["numbytes"])])
                 else:
                     k2 = r.choice([".".join(parts[:3]), ".".join(parts[:3] + ["name"]), ".".join(parts[:3] + ["arguments"]),
-                                   ".".join(parts[:2])])
+                                   ".".join(parts[:2]),
+                                   # an undeclared argument called like a method of the Mapping class
+                                   ".".join(parts[:3] + ["arguments", r.choice(["values", "items", "keys", "get", "update", "pop"])])])
                 keys.append(k2)
                 kinds.append("nonsetting")
             else:
-                k2, kind = mutate_key(r, key, pipe)
+                k2, kind = mutate_key(r, key, pipe, det)
                 if not ok_str(k2):
                     continue
                 keys.append(k2)
@@ -1145,7 +1293,8 @@ def run(ctx: Ctx):
         gen = {"Gen_C08.v": tr.FALLBACK}
     core.proof_leg(ctx, gen, PROP_FILE)
 
-    set_cases = exhaustive_valid_cases(ctx) + gen_set_cases(ctx, ctx.budget(int(__import__('os').environ.get('C08_N', 600)), 4000))
+    load_names(ctx)
+    set_cases = exhaustive_valid_cases(ctx) + exhaustive_class_attr_cases(ctx) + gen_set_cases(ctx, ctx.budget(int(__import__('os').environ.get('C08_N', 600)), 4000))
     pairs, nm = leg_set(ctx, set_cases)
     dcases = exhaustive_derive_cases(ctx) + gen_derive_cases(ctx, ctx.budget(240, 1600))
     dpairs, dnm, leads = leg_derive(ctx, dcases)
